@@ -17,6 +17,18 @@ MU = 398600.4415  # Earth.mu (checked against the code in impl_run)
 TAU = 2 * math.pi
 
 
+
+def asked_twice(cfg):
+    """the state a configuration describes, asked for a second time after the caller has worked on the first answer in place
+    (an agent adds its initial error to the array it was given): the configuration still describes the same orbit"""
+    first = cfg.toECI(datetime(2021, 1, 1))
+    try:
+        first += 1000.0
+    except (TypeError, ValueError):  # an immutable answer is fine too
+        pass
+    return cfg.toECI(datetime(2021, 1, 1))
+
+
 def cases(run: Run):
     rng = run.rng
     out = list(corpus(PID))
@@ -159,7 +171,7 @@ def impl_run_inner(c):
         rec["lam_back"] = float(an.eccLong2MeanLong(F, q[1], q[2]))
         # configuration: the same orbit as an EQE config
         cfg = EQEStateConfig(semi_major_axis=float(q[0]), h=float(q[1]), k=float(q[2]), p=float(q[3]), q=float(q[4]), mean_longitude=float(math.degrees(q[5]) % 360.0), retrograde=retro)
-        rec["cfg"] = [float(v) for v in cfg.toECI(datetime(2021, 1, 1))]
+        rec["cfg"] = [float(v) for v in asked_twice(cfg)]
         out["eqe"]["retro" if retro else "direct"] = rec
     # singularityCheck on the angles as given
     inclined, eccentric = bool(isInclined(i)), bool(isEccentric(e))
@@ -178,7 +190,7 @@ def impl_run_inner(c):
     out["anom"]["lam_back"] = float(an.eccLong2MeanLong(F2, hh, kk))
     # configurations: ECI and COE descriptions
     if float(np.linalg.norm(x[:3])) > float(Earth.radius) + 1.0:  # the configuration rejects positions inside the Earth
-        out["cfg_eci"] = [float(v) for v in ECIStateConfig(position=[float(v) for v in x[:3]], velocity=[float(v) for v in x[3:]]).toECI(datetime(2021, 1, 1))]
+        out["cfg_eci"] = [float(v) for v in asked_twice(ECIStateConfig(position=[float(v) for v in x[:3]], velocity=[float(v) for v in x[3:]]))]
     deg = lambda v: float(math.degrees(v) % 360.0)
     kw = dict(semi_major_axis=a, eccentricity=e, inclination=float(math.degrees(i)))
     if inclined and eccentric:
@@ -194,7 +206,7 @@ def impl_run_inner(c):
     else:
         kw.update(true_longitude=deg(nu))
         target = ref_state(a, e, i, 0.0, 0.0, nu)
-    out["cfg_coe"] = [float(v) for v in COEStateConfig(**kw).toECI(datetime(2021, 1, 1))]
+    out["cfg_coe"] = [float(v) for v in asked_twice(COEStateConfig(**kw))]
     out["cfg_coe_target"] = [float(v) for v in target]
     return out
 
